@@ -48,4 +48,13 @@ macro "settings_entered" d:ident : tactic => `(tactic| (
     and_self, and_true, and_false] at *
   try (first | rfl | grind | (simp_all; try simp [setS_apply]))))
 
+/-- Proves the generated `kept_<name>` statements: a field the block did not name (argument `None`) shows, inside
+the block, the value it had where the block was entered. -/
+macro "settings_kept" d:ident : tactic => `(tactic| (
+  simp only [enteredStore, $d:ident, execAll, Stmt.exec, Expr.eval, Cond.eval, setF_apply, setS_apply, List.contains_cons,
+    List.contains_nil, Nat.reduceEqDiff, ↓reduceIte, if_true, if_false, ite_fst, ite_snd, ite_env_store,
+    ite_env_self, ite_env_args, ite_env_strict, ite_self, ite_fun_apply, Bool.false_eq_true, Option.map_some, Option.map_none,
+    and_self, and_true, and_false] at *
+  try (first | rfl | grind | (simp_all; try simp [setS_apply]))))
+
 end Settings
